@@ -236,6 +236,31 @@ theorem pre_of_all (F : Facts10) (hl : F.preTable.length = PreKey.count) (P : Pr
   simp only [List.getD_eq_getElem?_getD, List.getElem?_eq_getElem hk, Option.getD_some]
   exact h _ (List.getElem_mem hk)
 
+/-! ### the envelope table -/
+
+theorem EnvKey.idx_lt (k : EnvKey) : k.idx < EnvKey.count := by
+  rcases k with ⟨v, n, h, b⟩
+  have h1 : n.idx ≤ 2 := by cases n <;> decide
+  have h2 : h.idx ≤ 5 := by cases h <;> decide
+  have h3 : b.idx ≤ 7 := by cases b <;> decide
+  simp only [EnvKey.idx, EnvKey.count]
+  cases v <;> simp <;> omega
+
+def EnvDecision.good : EnvDecision → Bool
+  | .called => true
+  | .clientFault c => isClient c
+  | _ => false
+
+/-- every row of the envelope table is a call or a Client fault -/
+def envTableOk (F : Facts10) : Bool := decide (F.envTable.length = EnvKey.count) && F.envTable.all EnvDecision.good
+
+theorem env_good (F : Facts10) (h : envTableOk F = true) (k : EnvKey) : (F.env k).good = true := by
+  simp only [envTableOk, Bool.and_eq_true, decide_eq_true_eq, List.all_eq_true] at h
+  have hk : k.idx < F.envTable.length := by rw [h.1]; exact EnvKey.idx_lt k
+  unfold Facts10.env
+  simp only [List.getD_eq_getElem?_getD, List.getElem?_eq_getElem hk, Option.getD_some]
+  exact h.2 _ (List.getElem_mem hk)
+
 theorem PreKey.mem_all (k : PreKey) : k ∈ PreKey.all := by
   rcases k with ⟨f, m, c, l⟩
   simp only [PreKey.all, List.mem_flatMap, List.mem_map]
